@@ -15,6 +15,46 @@ CODE_NAMES = {1: "EOF", 2: "NO_SUCH_FILE", 3: "PERMISSION_DENIED", 4: "FAILURE",
               6: "NO_CONNECTION", 7: "CONNECTION_LOST", 8: "OP_UNSUPPORTED"}
 
 
+class ShortSource:
+    """Local source for putfo() whose read(n) may return fewer bytes than asked although more follow
+    (legal for raw streams, pipes, sockets, HTTP bodies); only b"" means end of data."""
+
+    def __init__(self, data, pattern, seed):
+        import random
+
+        self.data, self.pos, self.pattern, self.rng = data, 0, pattern, random.Random(seed)
+        self.calls = 0
+        self.short_reads = 0  # reads that returned less than asked although more data followed
+
+    def read(self, n=-1):
+        left = len(self.data) - self.pos
+        if n is None or n < 0:
+            n = left
+        k = min(n, left)
+        p, c = self.pattern, self.calls
+        if p == "random":
+            k = min(k, self.rng.choice([1, 7, 1000, 8191, 16384, 32767, n]))
+        elif p == "one_byte":
+            k = min(k, 1) if (len(self.data) <= 3000 or c < 40) else k
+        elif p == "boundary":
+            # stop one byte short of every 32768 boundary, then deliver that single byte
+            nxt = (self.pos // 32768 + 1) * 32768
+            k = min(k, (nxt - 1 - self.pos) or 1)
+        elif p == "short_then_full":
+            k = min(k, 1000) if c == 0 else k
+        elif p == "full_then_short":
+            k = k if c == 0 else min(k, 20000)
+        self.calls += 1
+        out = self.data[self.pos:self.pos + k]
+        self.pos += len(out)
+        if len(out) < n and self.pos < len(self.data):
+            self.short_reads += 1
+        return out
+
+
+SOURCE_PATTERNS = ["random", "one_byte", "boundary", "short_then_full", "full_then_short"]
+
+
 def run_case(case, root, cap=90.0):
     """case = dict(op, size, cseed, fault=None|["write"|"read", k, code]|["short", k, n]|["shortall", n],
     confirm, callback, prefetch, maxreq, bufsize).  Returns a JSON-able dict."""
@@ -145,7 +185,9 @@ def run_case(case, root, cap=90.0):
             if op == "put":
                 box["ret"] = c.put(local, "/r", callback=cb, confirm=case["confirm"])
             elif op == "putfo":
-                box["ret"] = c.putfo(io.BytesIO(data), "/r", len(data), cb, case["confirm"])
+                src = ShortSource(data, case["source"], case["cseed"]) if case.get("source") else io.BytesIO(data)
+                box["src"] = src
+                box["ret"] = c.putfo(src, "/r", len(data), cb, case["confirm"])
             elif op == "pfile":
                 f = c.open("/r", "wb", case.get("bufsize", -1))
                 f.set_pipelined(True)
@@ -217,6 +259,9 @@ def run_case(case, root, cap=90.0):
             with b.wire.plock:
                 wpk = [p["n"] for p in b.wire.packets if p["dir"] == "c2s" and p["type"] == 6]
             out["sync_before_rejected_write"] = fault[1] < len(wpk) and sync_info["pkt"] <= wpk[fault[1]]
+    if case.get("source"):
+        out["source_short_reads"] = box["src"].short_reads if box.get("src") is not None else 0
+        out["source_read_calls"] = box["src"].calls if box.get("src") is not None else 0
     out["close_plan"] = cplan
     out["close_fault_delivered"] = bool(close_seen)
     out.update(reads=script.reads, writes=script.writes, callback_calls=len(cb_calls),
